@@ -8,7 +8,7 @@ ap = argparse.ArgumentParser()
 ap.add_argument('patch'); ap.add_argument('--checks', default='auto'); ap.add_argument('--tier', default='quick'); ap.add_argument('--equiv')
 a = ap.parse_args()
 props = [json.loads(l) for l in open(os.path.join(HERE, 'properties.jsonl'))]
-touched = {l.split('+++ b/')[1].strip() for l in open(a.patch) if l.startswith('+++ b/')}
+touched = {l.split('+++ b/')[1].strip() for l in open(a.patch, encoding='latin-1') if l.startswith('+++ b/')}
 if a.checks == 'auto':
     checks = [p['id'] for p in props if touched & set(p['anchors']['files'])]
     if 'C10' not in checks: checks.append('C10')
